@@ -1,6 +1,7 @@
 package common
 
 import (
+	"context"
 	"encoding/json"
 	"fmt"
 	"os"
@@ -10,6 +11,7 @@ import (
 	"strconv"
 	"strings"
 	"sync"
+	"time"
 )
 
 // Process sharding: a harness whose instrumentation needs process-global state (the map-order
@@ -213,16 +215,29 @@ func (r *Run) ColdStart(probes map[string]func() string) {
 		go func(i int, n string) {
 			defer wg.Done()
 			defer func() { <-sem }()
-			cmd := exec.Command(os.Args[0], "-tier", r.Tier)
-			cmd.Env = append(os.Environ(), "VERIF_COLD="+n)
-			out, err := cmd.CombinedOutput()
-			results[i].out = strings.TrimSpace(string(out))
-			if err != nil {
-				if ee, ok := err.(*exec.ExitError); ok {
-					results[i].code = ee.ExitCode()
-				} else {
-					results[i].code = 2
+			// a probe takes milliseconds; a child that is still running after five minutes does not
+			// return (a lock that was never released), which is what gets reported
+			for attempt := 0; attempt < 2; attempt++ {
+				ctx, cancel := context.WithTimeout(context.Background(), 5*time.Minute)
+				cmd := exec.CommandContext(ctx, os.Args[0], "-tier", r.Tier)
+				cmd.Env = append(os.Environ(), "VERIF_COLD="+n)
+				out, err := cmd.CombinedOutput()
+				hung := ctx.Err() != nil
+				cancel()
+				results[i].out = strings.TrimSpace(string(out))
+				results[i].code = 0
+				if err != nil {
+					if ee, ok := err.(*exec.ExitError); ok {
+						results[i].code = ee.ExitCode()
+					} else {
+						results[i].code = 2
+					}
 				}
+				if hung {
+					results[i].code = 5
+					continue // once more before it is believed
+				}
+				break
 			}
 		}(i, n)
 	}
@@ -234,7 +249,14 @@ func (r *Run) ColdStart(probes map[string]func() string) {
 		case 0:
 		case 3:
 			r.Violation(n+"|wrong-as-first-call-of-the-process", fmt.Sprintf("in a fresh process whose first library call is %s: %s", n, tailStr(results[i].out, 600)), map[string]any{"first_call": n}, "")
+		case 5:
+			r.Violation(n+"|does-not-return", fmt.Sprintf("a fresh process whose first library calls are the probe %s did not finish within 5 minutes (twice)", n), map[string]any{"first_call": n}, "")
 		default:
+			if !strings.Contains(results[i].out, "CHECK-ERROR") && (strings.Contains(results[i].out, "fatal error:") || strings.Contains(results[i].out, "panic:")) {
+				// the Go runtime ended the child (an unrecoverable error such as unlocking an unlocked mutex)
+				r.Violation(n+"|terminates-the-process", fmt.Sprintf("a fresh process running the probe %s was terminated by the Go runtime: %s", n, tailStr(results[i].out, 400)), map[string]any{"first_call": n}, "")
+				continue
+			}
 			Infra("cold-start probe %s could not run (exit %d): %s", n, results[i].code, tailStr(results[i].out, 1500))
 		}
 	}
